@@ -74,7 +74,8 @@ class Check:
                     printed.add(v["key"])
             else:
                 new.append(v)
-        evdir = os.path.join(VERIF, "evidence")
+        # (selftest / seed-matrix runs against a scratch tree redirect their evidence)
+        evdir = os.environ.get("ZVT_EVIDENCE_DIR") or os.path.join(VERIF, "evidence")
         os.makedirs(evdir, exist_ok=True)
         # remove stale violation files of this property
         for f in os.listdir(evdir):
